@@ -304,7 +304,7 @@ theorem lex_header_line (C : Classes) (hC : ClassesOk C = true) {z : Z} (hz : LS
       intro Z hZ
       have hZ' : Z.after = w ++ r ++ LF :: rest := by rw [hZ, hdescr]
       have := scanInLineAt_text C hZ' hwne hwl (fun c hc => classesOk_lower hC (hwl c hc)) hrt hrs
-        (Stops.cons _ (by decide))
+        (StopsL.lf _ _)
         (by rw [hZ]; exact looksLikeAccount_noColon _ _ hnc (Or.inr ⟨_, rfl⟩))
         (by rw [← hdescr]; exact htrim)
       rw [← hdescr] at this
